@@ -215,6 +215,37 @@ func c02Eval(c *Ctx, kind string, raw []byte) {
 			c02Search(c, cb, fl, "none", func(v interface{}) bool { return false })
 			m := c.Model("addr", map[string]any{"d": p.D})
 			c.Corr("addr", map[string]any{"flatten": flattenWire(cb), "per": per, "scalars": len(fl)}, m)
+			// history: the views were computed once; now edit the document through NESTED handles
+			// (a child container's AddValue, a list's Append) and ask again — the flattened view and
+			// Search must describe the document as it is now
+			edited := false
+			for _, k := range sortedKeys(cb.Children()) {
+				switch h := cb.Children()[k].(type) {
+				case dom.ContainerBuilder:
+					h.AddValue("zz-new", dom.LeafNode("fresh"))
+					edited = true
+				case dom.ListBuilder:
+					h.Append(dom.LeafNode("fresh"))
+					edited = true
+				}
+			}
+			if edited {
+				c.Dist("addr:re-flattened-after-nested-edit")
+				now := nodeWire(cb)
+				ref2 := map[string]struct {
+					V     W
+					Steps int
+				}{}
+				wireFlattenRef(now, "", 0, ref2)
+				fl2 := cb.Flatten()
+				good := len(fl2) == len(ref2)
+				for q, l := range fl2 {
+					e, ok := ref2[q]
+					good = good && ok && canon(scalarWire(l.Value())) == canon(e.V)
+				}
+				c.Direct("flatten==scalar positions (after an edit through a nested handle)", good, map[string]any{"flatten": flattenWire(cb), "document": now})
+				c02Search(c, cb, fl2, "equal fresh (after nested edit)", dom.SearchEqual("fresh"))
+			}
 		})
 		c.Direct("no-panic", out == "ok", txt)
 	case "rebuild":
